@@ -128,6 +128,8 @@ func (w *World) VerifyFunc(lc *LoadedContract, opts VerifyOpts) (res *FuncResult
 	pre := st.clone()
 	for _, cl := range ex.evalSpec(lc.Spec, specArgs0) {
 		switch cl.Kind {
+		case "fact":
+			ex.assume(st, ex.inst(cl.Cond, pre, pre))
 		case "requires":
 			ex.assume(st, ex.inst(Implies(cl.PC, cl.Cond), pre, pre))
 		case "case":
@@ -194,7 +196,13 @@ func (w *World) VerifyFunc(lc *LoadedContract, opts VerifyOpts) (res *FuncResult
 					ex.values = append(ex.values, NamedTerm{fmt.Sprintf("result%d", i), v.T})
 				}
 			}
-			for _, cl := range ex.evalSpec(lc.Spec, specArgs1) {
+			postClauses := ex.evalSpec(lc.Spec, specArgs1)
+			for _, cl := range postClauses {
+				if cl.Kind == "fact" {
+					ex.assume(xp.st, ex.inst(cl.Cond, fr.pre, xp.st))
+				}
+			}
+			for _, cl := range postClauses {
 				if cl.Kind == "ensures" {
 					ex.assert(xp.st, "post", cl.Name+xp.sfx, cl.Tags, ex.inst(Implies(cl.PC, cl.Cond), fr.pre, xp.st), w.prog.Fset.Position(fn.Pos()))
 				}
